@@ -233,3 +233,68 @@ func zzRxJunkDatagramDropped() {
 	zzsymAssert(err == nil || c.classifyReadLoopError(err) == readLoopContinue, "unparseable_datagram_is_silently_discarded")
 	zzsymAssert(len(c.decrypted) == 0 && c.nextConn.(*zzNet8).writes == 0, "unparseable_datagram_has_no_effect")
 }
+
+// "Datagrams that cannot be parsed as DTLS records are dropped, and the endpoint keeps serving", second half: a
+// datagram that splits into ONE well-framed unprotected record (legacy header, epoch 0, arbitrary content type,
+// version bytes and sequence number, body of 0..NBADREC arbitrary bytes) whose CONTENT does not decode
+// (recordlayer.RecordLayer.Unmarshal refuses it: unknown content type, truncated alert, malformed ACK,
+// change_cipher_spec with a wrong byte, ...), in the same five endpoint states, handshake completed or not. Proved for
+// the read loop's step on it: nothing is written (no alert goes out - sending a fatal alert closes the connection), no
+// error stops the loop or reaches Read, nothing is delivered. Handshake records are excluded: their fragments go to the
+// reassembly buffer and are decoded by the flight parsers (a malformed handshake message fails the handshake it
+// belongs to, which no endpoint can avoid before Finished). On the tree before the repair this FAILED: one such
+// datagram from anybody closed an established DTLS 1.2 or 1.3 connection (confirmed with live connections).
+//
+//symgo:param NBADREC quick=4 thorough=8
+//symgo:entry covers=bad_record_established,bad_record_pre_handshake,bad_record_12,bad_record_13
+func zzRxUndecodableCleartextRecordDropped() {
+	state := zzsymChoice("state", 5)
+	var c *Conn
+	switch state {
+	case 0, 1:
+		c = zzConn8(nil, state == 0)
+	case 2:
+		c = zzConn8(&zzSuite8{init: true}, false)
+		dtlsstate.CommonState(c.state).LocalVersion = protocol.Version1_2
+		zzsymCover("bad_record_12")
+	case 3:
+		c = zzConn8(&zzSuite8{init: true}, true)
+		common := dtlsstate.CommonState(c.state)
+		common.LocalVersion = protocol.Version1_2
+		common.SetLocalConnectionID(zzsymBytes("lcid", 2))
+	case 4:
+		c = zzConn8(&zzSuite8{}, false)
+		st := dtlsstate.Activate13(c.state)
+		c.state = st
+		st.LocalVersion = protocol.Version1_3
+		zzsymCover("bad_record_13")
+	}
+	c.handshakeEstablished = dtlshandshake.NewEstablishment()
+	if zzsymChoice("established", 2) == 1 {
+		dtlshandshake.ZZMarkEstablished(c.handshakeEstablished)
+		zzsymCover("bad_record_established")
+	} else {
+		zzsymCover("bad_record_pre_handshake")
+	}
+	n := zzsymChoice("bodylen", zzsymParam("NBADREC")+1)
+	body := zzsymBytes("body", n)
+	ct := zzsymU8("content_type")
+	zzsymAssume(ct != byte(protocol.ContentTypeHandshake))
+	seq := zzsymBytes("seq", 6)
+	rec := []byte{ct, zzsymU8("vmaj"), zzsymU8("vmin"), 0, 0}
+	rec = append(rec, seq...)
+	rec = append(rec, byte(n>>8), byte(n))
+	rec = append(rec, body...)
+	pkts, uerr := c.unpackDatagram(append([]byte{}, rec...))
+	if uerr != nil || len(pkts) != 1 {
+		return // not one well-framed record for this state's splitter (zzRxJunkDatagramDropped)
+	}
+	if (&recordlayer.RecordLayer{}).Unmarshal(append([]byte{}, rec...)) == nil {
+		return // decodes: what each content kind then does is not this entry's subject
+	}
+	c.nextConn.(*zzNet8).incoming = rec
+	_, err := c.readAndProcessDatagram(context.Background())
+	zzsymAssert(err == nil || c.classifyReadLoopError(err) == readLoopContinue, "undecodable_cleartext_record_is_silently_discarded")
+	zzsymAssert(c.nextConn.(*zzNet8).writes == 0, "undecodable_cleartext_record_elicits_nothing")
+	zzsymAssert(len(c.decrypted) == 0, "undecodable_cleartext_record_delivers_nothing")
+}
